@@ -42,7 +42,14 @@ def run(ctx):
     date = 1517418800
     vurl = b'https://example.com/validity'
 
-    def chain(k): return f'{k["cert"]}:{hexs(b"ocsp")}:nil'
+    others = {id(k): [o for o in w.keys if o is not k] for k in w.keys}
+
+    def chain(k, long=False):
+        # long: the leaf followed by further certificates (issuer position), so that authority indices are not 0, 1, 2, ...
+        c = f'{k["cert"]}:{hexs(b"ocsp")}:nil'
+        if long:
+            c += ''.join(f',{o["cert"]}:nil:nil' for o in others[id(k)][:1 + (len(k["cert"]) % 2)])
+        return c
 
     bundles = []
     for ver in ('b1', 'b2'):
@@ -56,11 +63,11 @@ def run(ctx):
     for b in bundles:
         r = rng.random()
         ks = [kA] if r < 0.4 else [kA, kB] if r < 0.7 else [kB, kA2] if r < 0.85 else [kA, kA2]      # last: overlapping coverage -> error
-        seqs.append(dict(b=b, keys=ks, rs=rng.choice([1, 16, 4096]), dur=rng.choice([3600, 604800, 604801])))
+        seqs.append(dict(b=b, keys=ks, rs=rng.choice([1, 16, 4096]), dur=rng.choice([3600, 604800, 604801]), long=[rng.random() < 0.5 for _ in ks]))
     signed_all = []
     for step in range(2):
         act = [s for s in seqs if step < len(s['keys']) and s['b']]
-        ops = [f'bsig.sign {s["b"]} {s["rs"]} {chain(s["keys"][step])} {s["keys"][step]["key"]} {hexs(vurl)} {date} {s["dur"]}' for s in act]
+        ops = [f'bsig.sign {s["b"]} {s["rs"]} {chain(s["keys"][step], s["long"][step])} {s["keys"][step]["key"]} {hexs(vurl)} {date} {s["dur"]}' for s in act]
         res = ctx.go(ops)
         # cansign tables
         cq = []
@@ -77,7 +84,7 @@ def run(ctx):
             if r and r.startswith('ok '):
                 nb = r[3:]
                 sig = nb.split(' ')[3].split('/')[1].split('+')[-1].split(':')[1]
-            mops.append(f'bsig.signstep {s["b"]} {s["rs"]} {chain(s["keys"][step])} {hexs(vurl)} {date} {date + s["dur"]} {cs} {sig}')
+            mops.append(f'bsig.signstep {s["b"]} {s["rs"]} {chain(s["keys"][step], s["long"][step])} {hexs(vurl)} {date} {date + s["dur"]} {cs} {sig}')
             gout.append(('ok ' + r[3:]) if r and r.startswith('ok ') else 'err')
         mres = ctx.model(mops)
         for op, g, m in zip(mops, gout, mres):
